@@ -282,8 +282,9 @@ EL = dict(precs=PRECS_EL)
 MQ = dict(precs=PRECS_EL, regime="metamorphic")
 
 reg("besselj_int", "besselj", lambda c, n, x: c.besselj(n, M(c, x)), r_besselj_int, lambda rng, p: [rng.randint(-4, 12), g_xs(rng)], w=1.5, regime="integral", **IQ)
-reg("besselj_int_small", "besselj", lambda c, n, x: c.besselj(n, M(c, x)), gen=lambda rng, p: [rng.choice([rng.randint(0, 3), rng.randint(4, 16), rng.randint(4, 16)]), Fraction(rng.randint(1, 255), 2 ** rng.randint(10, 36))],
-    build=b_besselj_small, w=2.5, regime="small-argument-series", **EL)
+reg("besselj_int_small", "besselj", lambda c, n, x: c.besselj(n, M(c, x)), gen=lambda rng, p: [rng.choice([rng.randint(0, 3), rng.randint(4, 16), rng.randint(10, 20), rng.randint(10, 20)]),
+                         Fraction(rng.randint(1, 255), 2 ** rng.choice([rng.randint(10, 36), rng.randint(14, 18), rng.randint(14, 18)]))],
+    build=b_besselj_small, w=4.0, regime="small-argument-series", **EL)
 reg("besseli_int", "besseli", lambda c, n, x: c.besseli(n, M(c, x)), r_besseli_int, lambda rng, p: [rng.randint(-3, 8), g_xs(rng, 10)], w=1.2, regime="integral", **IQ)
 reg("angerj", "angerj", lambda c, v, x: c.angerj(M(c, v), M(c, x)), r_angerj, lambda rng, p: [g_nonint_order(rng), g_xs(rng, 12)], w=0.6, regime="integral", **IQ)
 reg("webere", "webere", lambda c, v, x: c.webere(M(c, v), M(c, x)), r_webere, lambda rng, p: [g_order(rng), g_xs(rng, 12)], w=0.6, regime="integral", **IQ)
